@@ -13,8 +13,10 @@ use tonic_health::pb::health_client::HealthClient;
 use tonic_health::pb::{HealthCheckRequest, HealthCheckResponse};
 use tonic_health::ServingStatus;
 
-const SERVICES: [&str; 2] = ["", "a"];
-const UNKNOWN: &str = "zz";
+/// The second name carries surrounding whitespace and the never-set name is a single space: a
+/// service name is an opaque string, every operation has to treat it the same way.
+const SERVICES: [&str; 2] = ["", " a "];
+const UNKNOWN: &str = " ";
 
 fn st(i: usize) -> ServingStatus {
     [ServingStatus::Unknown, ServingStatus::Serving, ServingStatus::NotServing][i]
@@ -274,7 +276,7 @@ impl tonic::server::NamedService for NamedEmpty {
 }
 struct NamedA;
 impl tonic::server::NamedService for NamedA {
-    const NAME: &'static str = "a";
+    const NAME: &'static str = " a ";
 }
 
 fn menu2(live: &[bool], total_watches: usize, two_handles: bool) -> Vec<Op> {
@@ -439,7 +441,7 @@ fn sched_body(c: &SchedCase, ch: &Chooser) -> Outcome {
     let (reporter, server) = tonic_health::server::health_reporter();
     let client = HealthClient::new(server);
     if let Some(v) = c.init_a {
-        let _ = spin_block_on(reporter.set_service_status("a", st(v)), 1000);
+        let _ = spin_block_on(reporter.set_service_status(SERVICES[1], st(v)), 1000);
     }
     let results: Rc<RefCell<HashMap<(usize, usize), Ret>>> = Rc::new(RefCell::new(HashMap::new()));
     let live: Rc<RefCell<HashMap<usize, tonic::Streaming<HealthCheckResponse>>>> = Rc::new(RefCell::new(HashMap::new()));
@@ -493,7 +495,7 @@ fn sched_body(c: &SchedCase, ch: &Chooser) -> Outcome {
     tonic_health::verif_hooks::arm(false);
     // final state, observed sequentially
     let mut fclient = client.clone();
-    let final_a = spin_block_on(fclient.check(HealthCheckRequest { service: "a".into() }), 10_000).map(status_ret).unwrap_or(Ret::OtherErr("stalled".into()));
+    let final_a = spin_block_on(fclient.check(HealthCheckRequest { service: SERVICES[1].into() }), 10_000).map(status_ret).unwrap_or(Ret::OtherErr("stalled".into()));
     let final_e = spin_block_on(fclient.check(HealthCheckRequest { service: "".into() }), 10_000).map(status_ret).unwrap_or(Ret::OtherErr("stalled".into()));
     // every watch still alive is polled once more after everything has finished: an orphaned
     // watcher (one that will never see the latest status) shows up here
@@ -643,7 +645,7 @@ pub fn property(tier: Tier) -> Property {
     let hist = Section::new(
         "histories",
         Config::default(),
-        "cases: every operation sequence of depth 5 (thorough 7) over {set(service in {'', a}, status in 3), clear(service), check(service or a never-set name), watch(service) (<= 2 watches), next(w) = one non-blocking poll of a live watch, drop(w)} (choices cost nothing; one case per first operation; and again one level shallower with every SERVING / NOT_SERVING update made through set_serving::<S>() / set_not_serving::<S>() for NamedService types named '' and 'a'; and again one level shallower with every update / clear available through either of two handles, the reporter and a clone of it), driven through the generated HealthClient wired in-process to health_reporter()'s HealthServer with no runtime; RefHealth is stepped in lock-step on every operation: check == latest (NOT_FOUND when unset/cleared/never set); a watch's reports form an order-preserving subsequence of the statuses set for its registration from the subscription on, Pending only when nothing is unreported (or the latest status equals the one reported last) and the service is still registered, end only after a clear and after the unreported latest status; never a status that was not set; every watch is polled with its own counting waker (a fresh one whenever its previous poll was Pending: only the latest waker counts) and a watcher whose last poll was Pending must have been woken by the next clear of its registration or update to a status other than the one it reported last (no lost wake-up). Non-trivial = the sequence polls a watch and contains an update or clear.",
+        "cases: every operation sequence of depth 5 (thorough 7) over {set(service in {'', ' a ' (with surrounding blanks)}, status in 3), clear(service), check(service or the never-set name ' '), watch(service) (<= 2 watches), next(w) = one non-blocking poll of a live watch, drop(w)} (choices cost nothing; one case per first operation; and again one level shallower with every SERVING / NOT_SERVING update made through set_serving::<S>() / set_not_serving::<S>() for NamedService types named '' and 'a'; and again one level shallower with every update / clear available through either of two handles, the reporter and a clone of it), driven through the generated HealthClient wired in-process to health_reporter()'s HealthServer with no runtime; RefHealth is stepped in lock-step on every operation: check == latest (NOT_FOUND when unset/cleared/never set); a watch's reports form an order-preserving subsequence of the statuses set for its registration from the subscription on, Pending only when nothing is unreported (or the latest status equals the one reported last) and the service is still registered, end only after a clear and after the unreported latest status; never a status that was not set; every watch is polled with its own counting waker (a fresh one whenever its previous poll was Pending: only the latest waker counts) and a watcher whose last poll was Pending must have been woken by the next clear of its registration or update to a status other than the one it reported last (no lost wake-up). Non-trivial = the sequence polls a watch and contains an update or clear.",
         hcases,
         |c: &HistCase| format!("depth={} first={:?} typed_api={} two_handles={}", c.depth, c.first, c.typed, c.two_handles),
         hist_body,
